@@ -7,6 +7,7 @@ dict keyed by name in order of first mention) compared with the attribute list r
 """
 import itertools
 from emmet import expand
+from mc import session
 from mc import explore
 from mc.lexers import lex_html
 
@@ -174,6 +175,7 @@ def check_merge(ms, share, opts, syntax, explicit_list, host=None):
     exp = reference(ms, opts, syntax, explicit_list)
     try:
         cfg['options'] = o
+        cfg['cache'] = session.CACHE        # the shard's calls share one cache dict (mc/session.py)
         out = expand(s, cfg)
         ev = lex_html(out)
         if host:
